@@ -98,7 +98,7 @@ async fn case(seed: u64, case: u64, rep: &mut Report) {
     let dir = tempfile::tempdir().expect("tempdir");
     let url = format!("sqlite://{}/db.sqlite?mode=rwc", dir.path().display());
     let store = SqliteStoreBuilder::new().database_url(&url).max_connections(4).build().await.expect("store");
-    let node = match p2panda::Node::builder().database_pool(store.pool().clone()).spawn().await {
+    let node = match p2panda::Node::builder().mdns_mode(p2panda::network::MdnsDiscoveryMode::Disabled).database_pool(store.pool().clone()).spawn().await {
         Ok(n) => n,
         Err(e) => {
             rep.inconclusive(format!("node spawn failed: {e}"));
